@@ -69,8 +69,8 @@ CHECKS['C16'] = ('DESIGN.md#C16',
 
 CHECKS['C19'] = ('DESIGN.md#C19',
     'Hypothesis-generated images/centres/radii/masks/errors vs. the '
-    'independent aperture-sum oracle; generated normalize/unnormalize/read '
-    'histories vs. a fresh never-normalised reference; round-trip of the '
+    'independent aperture-sum oracle; generated normalize/unnormalize/read/'
+    'copy/pickle/gaussian-fit histories vs. a fresh never-normalised reference; round-trip of the '
     'encircled-energy interpolators',
     'Generated-input search: every curve-of-growth point is compared with an '
     'independently computed circular-aperture sum/area/error, every radial-'
@@ -187,7 +187,7 @@ CHECKS['C11'] = ('DESIGN.md#C11',
     'ambiguous.')
 
 CHECKS['C10'] = ('DESIGN.md#C10',
-    'Entry-point registry (50 public calls incl. every lazy property of '
+    'Entry-point registry (60 public calls incl. every lazy property of '
     'their results) x argument representation x data condition on '
     'Hypothesis-generated scenes; oracle = deep before/after snapshot of '
     'every caller-owned object',
@@ -200,8 +200,10 @@ CHECKS['C10'] = ('DESIGN.md#C10',
     'PSF model, apertures, segmentation image and the array behind a view '
     'must be bit-identical (values, dtype, strides, mask, fill_value, unit) '
     'after the call, also when it raises. Held on N cases; not a proof.',
-    'The registry covers the entry points named in C02-C20; plotting '
-    'helpers, I/O readers and the ePSF builder are not registered. '
+    'The registry covers the entry points named in C02-C20 and the other '
+    'public array-taking helpers (fit_2dgaussian, gini, CutoutImage, IDW '
+    'interpolation, ImageDepth, extract_stars, PSF matching ...); I/O '
+    'readers and the iterative ePSF builder are not registered. '
     'Documented in-place mutators of their own object are exempt.')
 CHECKS['C15'] = ('DESIGN.md#C15',
     'Entry-point registry evaluated on a float64 baseline and on 14 '
